@@ -18,7 +18,8 @@ AtomTable ==
    NBSP |-> [b |-> 2, cls |-> "n"], IDSP |-> [b |-> 3, cls |-> "n"], ENSP |-> [b |-> 3, cls |-> "n"],
    LSEP |-> [b |-> 3, cls |-> "c"], PSEP |-> [b |-> 3, cls |-> "c"], NEL |-> [b |-> 2, cls |-> "c"],
    EACUTE |-> [b |-> 2, cls |-> "n"], UUML |-> [b |-> 2, cls |-> "n"], CJK |-> [b |-> 3, cls |-> "n"],
-   KANA |-> [b |-> 3, cls |-> "n"], EMOJI |-> [b |-> 4, cls |-> "n"], COMB |-> [b |-> 2, cls |-> "x"]]
+   KANA |-> [b |-> 3, cls |-> "n"], EMOJI |-> [b |-> 4, cls |-> "n"], COMB |-> [b |-> 2, cls |-> "x"],
+   ARDIGIT |-> [b |-> 2, cls |-> "n"], FWDIGIT |-> [b |-> 3, cls |-> "n"]]
 
 AtomInfo(x) == IF Len(x) = 1 THEN [b |-> 1, cls |-> "n"] ELSE AtomTable[x]
 
